@@ -3510,7 +3510,8 @@ fn find_cand_segment_using_fallback_minimizers(
     let mut kmer_data: u64 = 0;
     let mut kmer_rc: u64 = 0;
     let mut kmer_len: usize = 0;
-    let mask: u64 = (1u64 << (2 * k)) - 1;
+    // k = 32 uses all 64 bits: 1u64 << 64 overflows (panic with overflow checks, mask 0 without)
+    let mask: u64 = if k >= 32 { u64::MAX } else { (1u64 << (2 * k)) - 1 };
 
     // Scan segment for k-mers
     for &base in segment_data {
@@ -3779,7 +3780,8 @@ fn add_fallback_mapping(
 
     let splitter_dir = (splitter1, splitter2);
     let splitter_rev = (splitter2, splitter1);
-    let mask: u64 = (1u64 << (2 * k)) - 1;
+    // k = 32 uses all 64 bits: 1u64 << 64 overflows (panic with overflow checks, mask 0 without)
+    let mask: u64 = if k >= 32 { u64::MAX } else { (1u64 << (2 * k)) - 1 };
 
     // K-mer scanning state
     let mut kmer_data: u64 = 0;
